@@ -233,14 +233,63 @@ theorem chunk_pos_sound (t : ChunkTarget) (s : Int) (q : Nat)
       rw [iters_succ_last]
       generalize hτ : iters G out lo0 ((q : Int) * s) K 0 σ = τ at ih1
       -- state at the start of chunk K
-      let τ' := τ.set (out, 0, 0) (lo0 + ((0 : Int) + (K : Nat)) * ((q : Int) * s))
-      have hτ'out : τ' (out, 0, 0) = lo0 + (K : Int) * ((q : Int) * s) := by
-        show (τ.set (out, 0, 0) _) (out, 0, 0) = _
-        rw [Store.set_same]; ring
-      have hτ'agree : AgreeExc U v τ' (Y (K * q)) :=
-        ih1.set_left (out, 0, 0) _ (Or.inl (fun h => h.1 rfl))
+      obtain ⟨τ', hτ'def⟩ : ∃ τ', τ' = τ.set (out, 0, 0) (lo0 + ((0 : Int) + (K : Nat)) * ((q : Int) * s)) := ⟨_, rfl⟩
+      rw [← hτ'def]
+      have hτ'out : τ' (out, 0, 0) = lo0 + ((K * q : Nat) : Int) * s := by
+        rw [hτ'def, Store.set_same]; push_cast; ring
+      have hτ'agree : AgreeExc U v τ' (Y (K * q)) := by
+        rw [hτ'def]
+        exact ih1.set_left (out, 0, 0) _ (Or.inl (fun h => h.1 rfl))
       have hτ'hi : eval hi τ' = hi0 := hhi_inv τ' _ hτ'agree (hY _)
-      show G τ' (v, 0, 0) = _ ∧ _ at *
-      sorry
+      have hG : G τ' = _ := chunk_G_eq v out el ((q : Int) * s) s hi body hoe τ'
+      have hm := chunk_inner_trip (lo := lo0) (hi := hi0) hs q K hKq
+      rw [show lo0 + (K : Int) * ((q : Int) * s) = lo0 + ((K * q : Nat) : Int) * s by push_cast; ring] at hm
+      rw [hτ'out, hτ'hi, hm, iters_shift] at hG
+      have e2 : (K + 1) * q = K * q + q := by ring
+      obtain ⟨m, hmdef⟩ : ∃ m, m = min ((K + 1) * q) n - K * q := ⟨_, rfl⟩
+      have hmin2 : min ((K + 1) * q) n = K * q + m := by omega
+      rw [← hmdef] at hG
+      rw [hG, hmin2]
+      constructor
+      · have hYadd : Y (K * q + m) = iters f v lo0 s m (((K * q : Nat) : Int) + 0) (Y (K * q)) := by
+          show iters f v lo0 s (K * q + m) 0 σ = _
+          rw [iters_add, Int.zero_add, Int.add_zero]
+        rw [hYadd]
+        apply AgreeExc.set_left _ _ _ (Or.inr rfl)
+        apply iters_congr_exc v lo0 s hf
+        exact hτ'agree.set_left (el, 0, 0) _ (Or.inl (fun h => h.2 rfl))
+      · intro _
+        rw [Store.set_same]
+        push_cast
+        ring
+  -- conclusion
+  intro x i j hxo hxe hxv
+  obtain ⟨k1, k2⟩ := key N (Nat.le_refl N)
+  have hnN : min (N * q) n = n := by
+    have : ¬ (N * q < n) := fun h => by
+      have := (chunk_outer_trip (lo := lo0) (hi := hi0) hs q hq N).2 h
+      omega
+    omega
+  rw [hnN] at k1 k2
+  have hL : exec (chunkApplyStep ⟨⟨v, lo, hi, .lit s, body⟩, (q : Int) * s, chunked, out, el⟩ s) σ
+      = (iters G out lo0 ((q : Int) * s) N 0 σ).set (out, 0, 0) (lo0 + ((0 : Int) + (N : Nat)) * ((q : Int) * s)) := by
+    simp only [chunkApplyStep, if_pos hs]
+    show runIters G out (eval lo σ) (eval (.lit ((q : Int) * s)) σ) (trip (eval lo σ) (eval hi σ) (eval (.lit ((q : Int) * s)) σ)) 0 σ = _
+    rw [runIters_eq_iters, hlo0, hhi0]
+    rfl
+  have hR : exec (LoopN.stmt ⟨v, lo, hi, .lit s, body⟩) σ
+      = (Y n).set (v, 0, 0) (lo0 + ((0 : Int) + (n : Nat)) * s) := by
+    show runIters f v (eval lo σ) (eval (.lit s) σ) (trip (eval lo σ) (eval hi σ) (eval (.lit s) σ)) 0 σ = _
+    rw [runIters_eq_iters, hlo0, hhi0]
+    rfl
+  rw [hL, hR, Store.set_apply, if_neg (fun h => hxo (congrArg Prod.fst h)), Store.set_apply]
+  split
+  · rename_i heq
+    have hn0 : 0 < n := hxv heq
+    have hN0 : 0 < N := (chunk_outer_trip (lo := lo0) (hi := hi0) hs q hq 0).2 (by omega)
+    rw [heq, k2 hN0]
+    ring
+  · rename_i hne
+    exact k1 x i j ⟨hxo, hxe⟩ hne
 
 end C05
